@@ -48,6 +48,11 @@ type Scenario struct {
 	// derived AES-GCM IV has the low 32 bits of the invocation counter just
 	// below 2^32, so that the sequence carries into the upper counter half.
 	GCMCarry int `json:"gcm_carry,omitempty"`
+	// OCipher/OMAC: the algorithms negotiated for the opposite direction
+	// (RFC 4253 section 7.1 negotiates each direction separately); empty =
+	// the same as Cipher/MAC
+	OCipher string `json:"o_cipher,omitempty"`
+	OMAC    string `json:"o_mac,omitempty"`
 }
 
 // gcmCarrySeeds: (direction tag, counter n embedded in K) found by
@@ -102,6 +107,10 @@ func gen(r *rand.Rand, prop, tier string, index int) any {
 	cb := cs[r.IntN(len(cs))]
 	s := &Scenario{Cipher: cb.cipher, MAC: cb.mac, Hash: hashNames[r.IntN(4)], C2S: r.IntN(2) == 0, KeySeed: r.Uint64(), KLen: []int{32, 33, 128, 257, 520}[r.IntN(5)],
 		FragDen: []int{0, 2, 6}[r.IntN(3)], Switch: 2 + r.IntN(6), Strict: r.IntN(4) == 0}
+	if r.IntN(3) == 0 {
+		o := cs[r.IntN(len(cs))]
+		s.OCipher, s.OMAC = o.cipher, o.mac
+	}
 	if prop == "C25" {
 		n := 1 + r.IntN(40)
 		if r.IntN(8) == 0 {
@@ -239,11 +248,20 @@ func keyed(c *core.Ctx, prop string, s *Scenario) *setup {
 		return st
 	}
 	st.algs = ssh.DirectionAlgorithms{Cipher: s.Cipher, MAC: s.MAC}
-	if err := st.w.PrepareKeys(st.algs, st.algs, st.k, st.h, st.id, st.hash); err != nil {
+	c2s, s2c := st.algs, st.algs
+	if s.OCipher != "" {
+		other := ssh.DirectionAlgorithms{Cipher: s.OCipher, MAC: s.OMAC}
+		if s.C2S {
+			s2c = other
+		} else {
+			c2s = other
+		}
+	}
+	if err := st.w.PrepareKeys(c2s, s2c, st.k, st.h, st.id, st.hash); err != nil {
 		c.Violate(prop, "key-setup", "writer PrepareKeys(%s,%s): %v", s.Cipher, s.MAC, err)
 		return nil
 	}
-	if err := st.r.PrepareKeys(st.algs, st.algs, st.k, st.h, st.id, st.hash); err != nil {
+	if err := st.r.PrepareKeys(c2s, s2c, st.k, st.h, st.id, st.hash); err != nil {
 		c.Violate(prop, "key-setup", "reader PrepareKeys(%s,%s): %v", s.Cipher, s.MAC, err)
 		return nil
 	}
@@ -632,6 +650,12 @@ func runForge(c *core.Ctx, s *Scenario, st *setup, start uint32) {
 			l := 1 + f.Off%48
 			for !enc.Aligned(d, l) {
 				l++
+			}
+			if f.Off%5 == 4 {
+				// a length that is a multiple of 8 (or 4) but not of the cipher's block size
+				enc.Loose = true
+				l += wiremon.BlockSize(s.Cipher) / 2
+				rt.Fault("wire-forged-misaligned-length")
 			}
 			body = detBytes(s.KeySeed+uint64(i), l)
 			if l > 1 {
